@@ -41,7 +41,48 @@ def _body(fn):
         b = b[1:]
     if b and isinstance(b[-1], ast.Return) and b[-1].value is None:
         b = b[:-1]
-    return b
+    import copy
+    return _inline_aliases([copy.deepcopy(x) for x in b])
+
+
+def _is_chain(e):
+    """`self`, `self.a`, `self.a.b` ... (no calls, no subscripts)"""
+    while isinstance(e, ast.Attribute):
+        e = e.value
+    return isinstance(e, ast.Name) and e.id == 'self'
+
+
+class _Subst(ast.NodeTransformer):
+    def __init__(self, env):
+        self.env = env
+
+    def visit_Name(self, n):
+        if isinstance(n.ctx, ast.Load) and n.id in self.env:
+            return self.env[n.id]
+        return n
+
+
+def _inline_aliases(stmts):
+    """`p = self.parent; ... p.x ...`  ->  `... self.parent.x ...` : a local that is
+    assigned exactly once, at the top level of the body, to an attribute chain on
+    `self`, and is never the target of another store, is replaced by the chain.
+    (The chain is re-read at every use; the sites this is applied to do not
+    rebind the attributes involved between the alias and its uses - if they
+    did, the body would not match the registered form afterwards anyway.)"""
+    stores = {}
+    for st in stmts:
+        for n in ast.walk(st):
+            if isinstance(n, ast.Name) and isinstance(n.ctx, (ast.Store, ast.Del)):
+                stores[n.id] = stores.get(n.id, 0) + 1
+    env, out = {}, []
+    for st in stmts:
+        if isinstance(st, ast.Assign) and len(st.targets) == 1 and isinstance(st.targets[0], ast.Name) \
+                and stores.get(st.targets[0].id) == 1 and _is_chain(_Subst(env).visit(st.value)) \
+                and isinstance(st.value, ast.Attribute):
+            env[st.targets[0].id] = st.value
+            continue
+        out.append(ast.fix_missing_locations(_Subst(env).visit(st)))
+    return out
 
 
 def _region(src, node):
